@@ -161,6 +161,30 @@ func runC16(c *Ctx, ev *Evidence) ([]Violation, error) {
 				}
 				blocks = append(blocks, smt.Or(ds...))
 			}
+			if ok && w.Tokens[k-1].Kind == 0 {
+				// the last token is a reader error: replay the input with readers that
+				// fail after it with different kinds of error values
+				var reqs []NativeReq
+				kinds := []string{"", "wrapped", "unexpected-eof", "wraps-eof"}
+				for _, kind := range kinds {
+					reqs = append(reqs, NativeReq{"op": "iofault", "policy": w.policyDSL(), "input": input, "fail_at": -1, "reader_fails": true, "reader_err": kind})
+				}
+				res, nerr := RunNative(c.Repo, c.VerifDir, reqs, "")
+				if nerr != nil {
+					return nil, nerr
+				}
+				for i, kind := range kinds {
+					gotErr, _ := res[i]["err"].(bool)
+					bl, _ := res[i]["reader_buf_len"].(float64)
+					if !gotErr || bl != 0 {
+						ev.AddReplayed(1)
+						viols = append(viols, Violation{Sig: "site=loop reader-error-swallowed", Detail: fmt.Sprintf("input %q, reader failing after it with a %q error: SanitizeReaderToWriter error reported=%v, SanitizeReader returned %v bytes", input, kind, gotErr, bl), Replay: []NativeReq{reqs[i]}})
+						return viols, nil
+					}
+				}
+				blockSel()
+				continue
+			}
 			if !ok || w.Tokens[k-1].Kind == 0 {
 				blockSel()
 				continue
